@@ -61,8 +61,9 @@ def sig_of(result):
 
 def evidence_info(prop, tier):
   return {
-      'rule': 'run = (environment, backend) x reset keys x one action schedule '
-              'kind per run (members differ by seed) x episode_length x batch; '
+      'rule': 'run = (environment, backend) x reset keys x per-member action '
+              'schedule kinds (every kind occurs in every batch) x episode_length '
+              'x batch; '
               'distinct = distinct genome hash; every run steps real physics, '
               'non-trivial = the run completed >= 1 wrapped step on a supported '
               'combination',
@@ -106,31 +107,44 @@ def generate(prop, tier, seed, run):
           'x64': worker_class(prop, tier, run)['x64']}
 
 
+def member_kinds(g):
+  """Every batch member follows its own schedule kind (rotating through all
+  kinds, starting at the run's kind); the last member duplicates member 0."""
+  k0 = KINDS.index(g['kind'])
+  kinds = [KINDS[(k0 + b) % len(KINDS)] for b in range(g['B'])]
+  if g['B'] > 1:
+    kinds[-1] = kinds[0]
+  return kinds
+
+
 def make_actions(g, A):
   """[T, B, A] float32 in [-1, 1]; member B-1 duplicates member 0."""
   import numpy as np
   rng = np.random.default_rng(g['act_seed'])
   T, B = g['T'], g['B']
-  kind = g['kind']
-  u = rng.uniform(-1, 1, size=(T, B, A))
-  if kind == 'uniform':
-    a = u
-  elif kind == 'bang':
-    a = np.sign(u)
-  elif kind == 'hold':
-    h = g['hold']
-    s = np.sign(rng.uniform(-1, 1, size=(T // h + 1, B, A)))
-    a = np.repeat(s, h, axis=0)[:T]
-  elif kind == 'chatter':
-    base = np.sign(rng.uniform(-1, 1, size=(1, B, A)))
-    flip = rng.uniform(size=(1, B, A)) < 0.5
-    alt = np.where((np.arange(T) % 2 == 0)[:, None, None], 1.0, -1.0)
-    a = np.where(flip, base * alt, base * np.ones((T, 1, 1)))
-  else:  # zero_then_bang
-    z = rng.integers(0, max(1, T // 2), size=(1, B, 1))
-    a = np.where(np.arange(T)[:, None, None] < z, 0.0, np.sign(u))
-  a = np.where(a == 0, 0.0, a)
-  a = a.astype(np.float32)
+  a = np.zeros((T, B, A))
+  for b, kind in enumerate(member_kinds(g)):
+    u = rng.uniform(-1, 1, size=(T, A))
+    if kind == 'uniform':
+      ab = u
+    elif kind == 'bang':
+      ab = np.sign(u)
+    elif kind == 'hold':
+      h = max(2, g['hold'] + int(rng.integers(-2, 3)))
+      s = np.sign(rng.uniform(-1, 1, size=(T // h + 1, A)))
+      if rng.random() < 0.5:     # all actuators pushed the same way
+        s = np.sign(rng.uniform(-1, 1, size=(T // h + 1, 1))) * np.ones((1, A))
+      ab = np.repeat(s, h, axis=0)[:T]
+    elif kind == 'chatter':
+      base = np.sign(rng.uniform(-1, 1, size=(1, A)))
+      flip = rng.uniform(size=(1, A)) < 0.5
+      alt = np.where((np.arange(T) % 2 == 0)[:, None], 1.0, -1.0)
+      ab = np.where(flip, base * alt, base * np.ones((T, 1)))
+    else:  # zero_then_bang
+      z = int(rng.integers(0, max(1, T // 2)))
+      ab = np.where(np.arange(T)[:, None] < z, 0.0, np.sign(u))
+    a[:, b] = ab
+  a = np.where(a == 0, 0.0, a).astype(np.float32)
   if B > 1:
     a[:, B - 1] = a[:, 0]
   return a
@@ -218,7 +232,8 @@ def execute(g, ctx):
   fobs = np.asarray(final.obs)
   ctx.log.out('traj', [flags, done, trunc, reward, ck, fobs])
   ctx.steps = T * B
-  ctx.fault('schedule_' + g['kind'], B)
+  for k in member_kinds(g):
+    ctx.fault('schedule_' + k)
   ctx.sim_time = float(T * B)
   ctx.nontrivial = True
   nterm = int(((done > 0) & (trunc == 0)).sum())
